@@ -10,6 +10,12 @@ NR = 'rnacos::naming::cluster::model::NamingRouteRequest'
 
 
 def run(ck, fb):
+    _run15(ck, fb)
+    r15i(ck, fb)
+    ck.borrow('rules.c14', {'R14g': 'R15j'}, 'a refused cluster message is a lost registry / view change: the nodes cannot converge on it')
+
+
+def _run15(ck, fb):
     ck.explanation = (
         'THIN CLAIM: convergence is a liveness property over schedules and faults and is not decided. Decided are necessary wiring '
         'conditions: (a) when a node is marked Invalid, RemoveClientFromCluster is sent for every client of that node and its client set '
@@ -382,3 +388,31 @@ def r15h(ck, fb):
                    'from_cluster is compared with the sender\'s id before reset_cluster_info stamped it: the sender\'s own instances still carry 0 there, '
                    'so none of its client ids is registered for that node (AddClientIds) and nothing removes their instances when the node dies')
     ck.floor('R15h', 'origin tests in handle_naming_route', n, 3)
+
+
+def r15i(ck, fb, R='R15i'):
+    ck.rule(R, 'a node that comes back gets its instances back: NamingActor::receive_snapshot may leave out an instance of a peer snapshot only after '
+               'looking at its own registry (it already holds its own, newer copy). Dropping every instance whose origin is this node leaves a '
+               'restarted owner with an empty list for instances whose clients died meanwhile, while the peers keep serving them - for good, '
+               'since mirrors have no time-out')
+    NA = 'rnacos::naming::core::NamingActor::'
+    b = ck.body(NA + 'receive_snapshot', R)
+    if not b:
+        return
+    ups = b.calls(re.escape(NA + 'update_instance') + '$')
+    heads = [x for x in b.calls(r'Iterator>::next$')]
+    look = {x.bb for x in b.calls(r'NamingActor::get_instance$|Service::get_instance$|HashMap::<K, V, S, A>::(get|contains_key)$')}
+    ck.floor(R, 'update_instance sites in receive_snapshot', len(ups), 1)
+    for s0 in ups:
+        for h in heads:
+            if s0.bb not in cfg.reach_from(b, [h.bb]) or h.bb not in cfg.reach_from(b, [s0.bb]):
+                continue
+            start = b.blocks[h.bb]['t'].get('t')
+            if start is None:
+                continue
+            skip = h.bb in cfg.reach_from(b, [start], blocked_blocks={s0.bb})
+            blind = h.bb in cfg.reach_from(b, [start], blocked_blocks={s0.bb} | look)
+            ck.require(not blind, R, 'receive_snapshot:skip-only-after-lookup', s0.where(),
+                       'an instance of a peer snapshot can be left out without a look at the local registry: a node that restarted never gets back the '
+                       'instances it owned (their clients may be gone, so no beat re-creates them) while the peers keep them',
+                       'skipped only after a lookup' if skip else 'never skipped')
